@@ -104,7 +104,7 @@ Fixpoint mvn_scan (fuel : nat) (s : bytes) (first : bool) (prev_cat : Z) (racc :
   end.
 
 (* isEmptyMavenElem tests s == "0": a zero spelled with several digits (00) is not empty and is
-   not trimmed, whereas ComparableVersion reads it as the null item 0 (finding F-C02-3).
+   not trimmed, whereas ComparableVersion reads it as the null item 0 (finding F-C02-11).
    The switch selects the repaired test (every all-zero numeral is empty). *)
 Definition mvn_fix_zero_spelling : bool := false.
 Definition all_zeros (s : bytes) : bool :=
